@@ -1,5 +1,5 @@
 """Allocation-failure rules (C15): T-NUL, T-ERR, T-OWN."""
-import os
+import os, re
 from collections import defaultdict
 from ..build import AnalysisBroken
 from . import common
@@ -887,3 +887,61 @@ def r11_broken_operand_not_dropped(ck, P):
                 ck.violation(R, fn, 'input %s' % (f.params[k][0] or k), '%s can return without having examined its input %s on some path: that region is neither handed to a callee, nor tested for data == NULL / the broken sentinel / numRects, nor known to be the result itself; if it is the broken region left by an earlier allocation failure the operation answers from the other operand and reports success' % (fn, f.params[k][0] or 'parameter %d' % k), r_.loc())
             else:
                 ck.ok(R, '%s: inputs %s examined on every path to a return' % (fn, [f.params[k][0] for k in inputs]))
+
+
+def r12_region_storage_released_before_overwrite(ck, P, rid='C20-R9'):
+    """typestate, one call level: outside the region implementation a region's data pointer is overwritten only when the region cannot own
+    storage at that point - it has been finalised on every path to the store, or it is a region that the function (or, for a parameter,
+    every caller) has just initialised and handed to nobody else."""
+    R = ck.rule(rid, 'every store to the data field of a pixman_region16 / pixman_region32 outside the region implementation files is preceded on every path by a call that finalises that region, or concerns a region that is a local object initialised by the region module with no other use in between - in the function itself or, when the region is a parameter, at each of its call sites: overwriting the pointer of a region that still owns its rectangle array leaks the array', floor=1)
+    n = 0
+    callers = P.callers()
+    def region_arg_calls(f, root):
+        return [c for c in f.calls() if any(a[0] in ('v', 'a') and f.root(f.path(a)) == root and not f.path(a)[1][1:] for a in c.a)]
+    def fresh_at(f, root, site):
+        """root is an alloca of f whose last use before `site` on every path is a call of a region init function"""
+        if root[0] != 'alloca':
+            return False
+        cs = [c for c in region_arg_calls(f, root) if c is not site]
+        inits = [c for c in cs if c.callee and re.search(r'_init(_rect|_with_extents)?$', c.callee) and f.dominates(c, site)]
+        for i in inits:
+            others = [c for c in cs if c is not i]
+            if f.reach_avoiding(i, lambda x: x is site, lambda x: any(x is o for o in others)) is None:
+                return True
+        return False
+    for u in P.units.values():
+        if re.search(r'pixman-region', u.name):
+            continue
+        for fn, f in sorted(u.functions.items()):
+            for x in f.insts():
+                if x.op != 'store':
+                    continue
+                lf = f.last_field(f.path(x.a[1])) or ''
+                if lf not in ('pixman_region32.data', 'pixman_region16.data'):
+                    continue
+                n += 1; ck.saw(f)
+                pth = f.path(x.a[1]); root = f.root(pth); base_fields = pth[1][:-1]
+                where = '%s/%s: store to %s at %s' % (u.name, fn, lf, x.loc())
+                # finalised on every path from the entry?
+                def is_fini(c):
+                    return c.op == 'call' and c.callee and c.callee.endswith('_fini') and any(a[0] in ('v', 'a') and f.root(f.path(a)) == root and tuple(f.path(a)[1]) == tuple(base_fields) for a in c.a)
+                entry_first = f.blocks[0].insts[0]
+                unfinalised = f.reach_avoiding(entry_first, is_fini, lambda y: y is x) is not None or entry_first is x
+                if not unfinalised:
+                    ck.ok(R, where, 'finalised on every path'); continue
+                if not base_fields and fresh_at(f, root, x):
+                    ck.ok(R, where, 'a local region initialised just before'); continue
+                ok = False
+                if root[0] == 'arg' and not base_fields and not f.exported:
+                    sites = [(h, c) for h in callers.get(f, ()) for c in h.calls(f.name)]
+                    ok = bool(sites)
+                    for h, c in sites:
+                        a = c.a[root[1]] if root[1] < len(c.a) else None
+                        hp = h.path(a) if a is not None else None
+                        if hp is None or hp[1] or not fresh_at(h, h.root(hp), c):
+                            ok = False
+                    if ok:
+                        ck.ok(R, where, 'every caller passes a region it has just initialised'); continue
+                ck.violation(R, fn, 'store to %s' % lf, '%s overwrites the data pointer of a region at %s although the region has not been finalised on every path to that store and is not known to be freshly initialised (not a local region, and not every caller passes one): if it still owns a rectangle array, the array is leaked and can never be released by the owner of the region' % (fn, x.loc()), x.loc())
+    if n == 0:
+        raise AnalysisBroken('%s: no store to a region data field outside the region implementation found (the composite-region function stores one)' % rid)
